@@ -91,7 +91,9 @@ def _unwas(x, excluded):
     return subst(x, r)
 
 
-def _propagate_once(fn):
+def _copies(fn):
+    """forward must-analysis of the copies (local, copied expression, locations read) that are valid before
+    every event: ({(block, index): frozenset}, address-taken locals)"""
     addr_taken, shared = set(), set()
     for e in fn.events():
         for x in walk(e):
@@ -150,6 +152,11 @@ def _propagate_once(fn):
         return S
 
     _, ev_in = forward(fn, frozenset(), transfer, lambda a, b: a & b)
+    return ev_in, addr_taken
+
+
+def _propagate_once(fn):
+    ev_in, _ = _copies(fn)
     n = [0]
 
     def rewrite(x, S):
@@ -227,13 +234,66 @@ def _collapse_substituted_addresses(g):
             blk.term = dict(blk.term, cond=simplify(subst(blk.term['cond'], r)))
 
 
+def _conditional_arms(g, J, ps, c, preds):
+    """J joins the two arms of a conditional operator whose test is c: {pred of J: 'a' | 'b'} when a block T
+    branches on c, each pred of J lies in the region entered by exactly one of T's edges, and the two regions
+    (closed under predecessors up to T, evaluating nothing but reads) end in J; else None."""
+    cc = canon(c)
+    for T in g.blocks.values():
+        if not T.term or T.term.get('cond') is None or len(T.succ) != 2 or T.succ[0] == T.succ[1] \
+                or T.term.get('cls') in ('SwitchStmt', 'MethodDispatch') or canon(T.term['cond']) != cc:
+            continue
+        regions = []
+        for k in (0, 1):
+            seen, todo = set(), [T.succ[k]]
+            while todo:
+                x = todo.pop()
+                if x is None or x in seen or x == J.id:
+                    continue
+                seen.add(x)
+                todo.extend(g.blocks[x].succ)
+            regions.append(seen)
+        ra, rb = regions
+        if (ra & rb) or T.id in ra or T.id in rb or J.id == T.id or g.exit in ra or g.exit in rb:
+            continue
+        ok = True
+        ckeys = _keys_read(c)
+        only_locals = all(k[0] == 'var' for k in ckeys) and not any(
+            x.get('k') == 'var' and x.get('vk') not in ('local', 'param') and ('var', x['name']) in ckeys for x in walk(c))
+
+        def harmless(e):
+            """the arm's event cannot change the value of the test c"""
+            if e['ev'] in ('load', 'decl', 'enter', 'leave'):
+                return True
+            if e['ev'] == 'call':
+                return e.get('callee') in PURE_CALLS or (only_locals and not any(
+                    isinstance(strip(a), dict) and strip(a).get('k') == 'addr' for a in e.get('args', [])))
+            if e['ev'] == 'store':
+                v = var_name(e['lhs'])
+                return v is not None and ('var', v) not in ckeys
+            return False
+        for reg in (ra, rb):
+            for x in reg:
+                if not all(harmless(e) for e in g.blocks[x].events) or any(q != T.id and q not in reg for q in preds.get(x, [])):
+                    ok = False
+        if not ok:
+            continue
+        if ps[0] in ra and ps[1] in rb:
+            return {ps[0]: 'a', ps[1]: 'b'}
+        if ps[0] in rb and ps[1] in ra:
+            return {ps[0]: 'b', ps[1]: 'a'}
+    return None
+
+
 def _lower_conditional_stores(g):
-    """`v = c ? A : B;` is evaluated by clang in a join block behind the two (empty) arms of the
-    conditional operator.  Duplicate the join block per arm and store the arm's value, so that a
-    flag computed with `?:` reads like one computed with if/else (flag partitioning then applies)."""
+    """`v = c ? A : B;` and `switch (c ? A : B)` / `if (c ? A : B)` are evaluated by clang in a join block behind
+    the (empty) arms of the conditional operator.  Duplicate the join block per arm and use the arm's value, so that
+    a value computed with `?:` (nested ones included) reads like one computed with if/else: flag partitioning and
+    the atoms of switch edges then apply."""
     from ..core import Block
     n = 0
-    while True:
+    while n < 64:
+        _merge_chains(g)
         preds = {}
         for b in g.blocks.values():
             for t in b.succ:
@@ -243,46 +303,45 @@ def _lower_conditional_stores(g):
         for j, J in g.blocks.items():
             if j in (g.exit, g.entry):
                 continue
+            ps = preds.get(j, [])
+            if len(ps) != 2 or ps[0] == ps[1] or any(g.blocks[x].succ != [j] for x in ps):
+                continue
+            cands = []
             for idx, e in enumerate(J.events):
-                if e['ev'] != 'store' or e.get('op') != '=' or 'rhs' not in e or var_name(e['lhs']) is None:
-                    continue
-                r = strip(e['rhs'])
-                if not (isinstance(r, dict) and r.get('k') == 'cond'):
-                    continue
-                ps = preds.get(j, [])
-                if len(ps) != 2 or ps[0] == ps[1]:
-                    continue
-                P = [g.blocks[x] for x in ps]
-                if any(p.succ != [j] or len(preds.get(p.id, [])) != 1 for p in P):
-                    continue
-                t0, t1 = preds[P[0].id][0], preds[P[1].id][0]
-                if t0 != t1:
-                    continue
-                T = g.blocks[t0]
-                if not T.term or T.term.get('cond') is None or sorted(T.succ) != sorted(ps) or canon(T.term['cond']) != canon(r['c']):
-                    continue
-                hit = (J, idx, r, T)
-                break
+                if e['ev'] == 'store' and e.get('op') == '=' and 'rhs' in e and var_name(e['lhs']) is not None:
+                    r = strip(e['rhs'])
+                    if isinstance(r, dict) and r.get('k') == 'cond':
+                        cands.append((idx, r))
+            if J.term and J.term.get('cond') is not None:
+                r = strip(J.term['cond'])
+                if isinstance(r, dict) and r.get('k') == 'cond':
+                    cands.append((None, r))
+            for (idx, r) in cands:
+                arms = _conditional_arms(g, J, ps, r['c'], preds)
+                if arms is not None:
+                    hit = (J, idx, r, arms)
+                    break
             if hit:
                 break
         if not hit:
             break
-        J, idx, r, T = hit
+        J, idx, r, arms = hit
         nid = max(g.blocks) + 1
-        for k, (arm, val) in enumerate(((T.succ[0], r['a']), (T.succ[1], r['b']))):
+        for k, (pid, arm) in enumerate(sorted(arms.items())):
             evs = copy.deepcopy(J.events)
-            evs[idx]['rhs'] = copy.deepcopy(val)
-            nb = Block(nid + k, evs, list(J.succ), copy.deepcopy(J.term), J.noreturn)
+            term = copy.deepcopy(J.term)
+            if idx is None:
+                term['cond'] = copy.deepcopy(r[arm])
+            else:
+                evs[idx]['rhs'] = copy.deepcopy(r[arm])
+            nb = Block(nid + k, evs, list(J.succ), term, J.noreturn)
             g.blocks[nb.id] = nb
-            g.blocks[arm].succ = [nb.id]
+            g.blocks[pid].succ = [nb.id]
         del g.blocks[J.id]
+        g._preds = None
         n += 1
     if n:
-        g._preds = None
-        for b in g.blocks.values():
-            for i, e in enumerate(b.events):
-                e['_b'] = b.id
-                e['_i'] = i
+        _renumber(g)
     return n
 
 
@@ -300,6 +359,17 @@ def _prune_constant_branches(g):
                 blk.term = dict(blk.term, cls='Pruned', pruned=('false' if v else 'true'))
                 blk.term.pop('cond', None)
                 n += 1
+        elif blk.term and blk.term.get('cls') == 'SwitchStmt' and blk.term.get('cond') is not None and len(blk.succ) > 1:
+            # `switch (2)` left behind by the lowering of a conditional selector
+            c = strip(fold(blk.term['cond']))
+            cases = blk.term.get('cases') or []
+            if isinstance(c, dict) and c.get('k') == 'int' and len(cases) == len(blk.succ):
+                tgt = [blk.succ[i] for i, cv in enumerate(cases) if cv == c['v']] or \
+                      [blk.succ[i] for i, cv in enumerate(cases) if cv == 'default']
+                if len(tgt) == 1:
+                    blk.succ = [tgt[0]]
+                    blk.term = {'cls': 'Pruned', 'loc': blk.term.get('loc'), 'pruned': 'case %s' % c['v']}
+                    n += 1
     if n:
         g._preds = None
     return n
@@ -333,6 +403,384 @@ def _resolve_indirect(g):
     return n
 
 
+# --------------------------------------------------------------------------
+# open-coded list primitives
+# --------------------------------------------------------------------------
+
+def _renumber(g):
+    g._preds = None
+    for b in g.blocks.values():
+        for i, e in enumerate(b.events):
+            e['_b'] = b.id
+            e['_i'] = i
+
+
+def _merge_chains(g):
+    """drop unreachable blocks and merge straight-line chains (the `do { } while (0)` of a macro, the join
+    behind an inlined helper), so that a run of statements is one block whatever statement structure
+    separates its parts"""
+    live = g.reachable_blocks()
+    live.add(g.exit)
+    for b in list(g.blocks):
+        if b not in live:
+            del g.blocks[b]
+    npred = {b: 0 for b in g.blocks}
+    for b in g.blocks.values():
+        for t in b.succ:
+            if t in npred:
+                npred[t] += 1
+    n = 0
+    for aid in sorted(g.blocks):
+        a = g.blocks.get(aid)
+        if a is None or aid == g.exit:
+            continue
+        while not a.noreturn and len(a.succ) == 1:
+            t = a.succ[0]
+            if t is None or t == a.id or t in (g.exit, g.entry) or npred.get(t) != 1 or t not in g.blocks:
+                break
+            bt = g.blocks[t]
+            a.events = a.events + bt.events
+            a.succ = list(bt.succ)
+            a.term = bt.term
+            a.noreturn = bt.noreturn
+            del g.blocks[t]
+            n += 1
+    _renumber(g)
+    return n
+
+
+_TOP = {'k': 'top'}
+_NULLS = ('NULL', '0')
+
+
+def _has_top(t):
+    return not isinstance(t, dict) or any(x.get('k') == 'top' for x in walk(t))
+
+
+def _key(t):
+    return canon(simplify(t))
+
+
+def _list_field(m):
+    return isinstance(m, dict) and m.get('k') == 'member' and m.get('record') == 'iv_list_head' and m.get('field') in ('next', 'prev')
+
+
+def _distinct(a, b):
+    """two addresses that cannot designate the same list head: those of different variables, of a variable and
+    a member of another object, of members of different (record, field)"""
+    a, b = strip(a), strip(b)
+    if not (isinstance(a, dict) and isinstance(b, dict) and a.get('k') == 'addr' and b.get('k') == 'addr'):
+        return False
+    x, y = strip(a['e']), strip(b['e'])
+    if not (isinstance(x, dict) and isinstance(y, dict)):
+        return False
+    kx, ky = x.get('k'), y.get('k')
+    if kx == 'var' and ky == 'var':
+        return x['name'] != y['name']
+    if {kx, ky} == {'var', 'member'}:
+        return True
+    if kx == 'member' and ky == 'member':
+        return (x.get('record'), x['field']) != (y.get('record'), y['field'])
+    return False
+
+
+class _Sym:
+    """Symbolic execution of a straight-line run of stores to iv_list_head.next/prev and to plain locals.
+    Terms are expressions over the values of the variables and of memory at the START of the run; a read of a
+    link field goes through the log of the stores made so far (a store through a pointer that may or may not
+    be the one read from is harmless iff it stored the value the field holds anyway)."""
+    def __init__(self, raw_env):
+        self.raw = dict(raw_env)        # local -> copied expression valid at the start
+        self.env = {}                   # local -> term
+        self.busy = set()
+        self.log = []                   # (pointer term, field, value term)
+        self.assume = []                # {key, key}: pointers taken to differ (to be granted by the primitive's precondition)
+
+    def var(self, v):
+        n = v['name']
+        if n in self.env:
+            return copy.deepcopy(self.env[n])
+        if n in self.raw and n not in self.busy:
+            self.busy.add(n)
+            saved, self.log = self.log, []
+            t = self.rv(self.raw[n])
+            self.log = saved
+            self.busy.discard(n)
+            if not _has_top(t):
+                t = dict(t)
+                t.setdefault('_was', n)
+                self.env[n] = t
+                return copy.deepcopy(t)
+        return {'k': 'load', 'e': v}
+
+    def rv(self, x):
+        if not isinstance(x, dict):
+            return _TOP
+        k = x.get('k')
+        if k == 'load':
+            return self.read_lv(x.get('e'))
+        if k in ('cast', 'paren', 'stmtexpr') and isinstance(x.get('e'), dict):
+            return self.rv(x['e'])
+        if k in ('int', 'null'):
+            return x
+        if k == 'addr':
+            l = self.lv(x['e'])
+            return _TOP if _has_top(l) else simplify({'k': 'addr', 'e': l})
+        if k == 'container_of':
+            p = self.rv(x['e'])
+            return _TOP if _has_top(p) else dict(x, e=p)
+        if k == 'var' and x.get('vk') == 'func':
+            return x
+        if k in ('var', 'member', 'deref'):
+            return self.read_lv(x)
+        return _TOP
+
+    def ptr_of(self, m):
+        """pointer term of the object a member expression selects from"""
+        if m['arrow']:
+            return self.rv(m['base'])
+        l = self.lv(m['base'])
+        return _TOP if _has_top(l) else simplify({'k': 'addr', 'e': l})
+
+    def lv(self, l):
+        if not isinstance(l, dict):
+            return _TOP
+        k = l.get('k')
+        if k == 'paren' and isinstance(l.get('e'), dict):
+            return self.lv(l['e'])
+        if k == 'var':
+            return l
+        if k == 'member':
+            b = self.rv(l['base']) if l['arrow'] else self.lv(l['base'])
+            return _TOP if _has_top(b) else simplify(dict(l, base=b))
+        if k == 'deref':
+            p = self.rv(l['e'])
+            return _TOP if _has_top(p) else simplify({'k': 'deref', 'e': p})
+        return _TOP
+
+    def read_lv(self, l):
+        if not isinstance(l, dict):
+            return _TOP
+        k = l.get('k')
+        if k == 'paren' and isinstance(l.get('e'), dict):
+            return self.read_lv(l['e'])
+        if k == 'var':
+            if l.get('vk') in ('local', 'param'):
+                return self.var(l)
+            return {'k': 'load', 'e': l}
+        if k == 'member':
+            p = self.ptr_of(l)
+            if _has_top(p):
+                return _TOP
+            if _list_field(l):
+                return self.read(p, l['field'])
+            return {'k': 'load', 'e': simplify(dict(l, base=p, arrow=True))}
+        if k == 'deref' and not self.log:
+            p = self.rv(l['e'])
+            return _TOP if _has_top(p) else {'k': 'load', 'e': simplify({'k': 'deref', 'e': p})}
+        return _TOP
+
+    @staticmethod
+    def initial(p, field):
+        return {'k': 'load', 'e': simplify({'k': 'member', 'base': copy.deepcopy(p), 'field': field, 'arrow': True, 'record': 'iv_list_head'})}
+
+    def read(self, p, field):
+        pk = _key(p)
+        res, maybe = None, []
+        for (q, f, v) in reversed(self.log):
+            if f != field:
+                continue
+            if _key(q) == pk:
+                res = v
+                break
+            if not _distinct(q, p):
+                maybe.append((q, v))
+        if res is None:
+            res = self.initial(p, field)
+        if _has_top(res):
+            return _TOP
+        for (q, v) in maybe:
+            if _has_top(v) or _key(v) != _key(res):
+                # the value read is res only if q and p are different nodes
+                if _has_top(q):
+                    return _TOP
+                self.assume.append(frozenset((_key(q), pk)))
+        return copy.deepcopy(res)
+
+    def store(self, lhs, rhs):
+        l = strip(lhs)
+        p = self.ptr_of(l)
+        self.log.append((p, l['field'], self.rv(rhs)))
+
+    def assign(self, name, rhs):
+        self.env[name] = self.rv(rhs) if rhs is not None else _TOP
+        self.raw.pop(name, None)
+
+
+def _match_primitive(W, assume=()):
+    """W: [(pointer term, field, value term)] in program order.  The list primitive whose effect (as a parallel
+    assignment over the start state) W is: (callee, [argument terms]) or None.  The order of the stores is free
+    where the primitive's precondition makes the written locations distinct (a node being added is on no list;
+    the list stolen from is not empty and the new head is private), and where two locations that may coincide
+    receive the same value (del_init of a self-linked node); it is kept for iv_list_del's poisoning."""
+    if any(_has_top(p) or _has_top(v) for (p, f, v) in W):
+        return None
+    S = [(_key(p), f, _key(v)) for (p, f, v) in W]
+    if len(set(S)) != len(S):
+        return None
+    SS = set(S)
+    ini = lambda p, f: _key(_Sym.initial(p, f))
+
+    def granted(private, others, pairs=()):
+        """every no-alias assumption made while reading is part of the primitive's precondition: the private node
+        differs from the other nodes involved; `pairs` differ"""
+        for a in assume:
+            if len(a) == 2 and private in a and (a - {private}) <= set(others):
+                continue
+            if a in [frozenset(x) for x in pairs]:
+                continue
+            return False
+        return True
+    if len(W) == 2:
+        for (p, f, v) in W:
+            n = _key(p)
+            if SS == {(n, 'next', n), (n, 'prev', n)} and not assume:
+                return ('INIT_IV_LIST_HEAD', [p])
+        return None
+    if len(W) == 4:
+        for (p, f, v) in W:
+            n, h = _key(p), _key(v)
+            if n == h:
+                continue
+            if not granted(n, (h, ini(v, 'prev'), ini(v, 'next'))):
+                continue
+            if f == 'next' and SS == {(n, 'next', h), (n, 'prev', ini(v, 'prev')), (ini(v, 'prev'), 'next', n), (h, 'prev', n)}:
+                return ('iv_list_add_tail', [p, v])
+            if f == 'prev' and SS == {(n, 'prev', h), (n, 'next', ini(v, 'next')), (ini(v, 'next'), 'prev', n), (h, 'next', n)}:
+                return ('iv_list_add', [p, v])
+        if assume:
+            return None
+        for (p, f, v) in W:
+            n = _key(p)
+            P, X = ini(p, 'prev'), ini(p, 'next')
+            if _key(v) == n and SS == {(P, 'next', X), (X, 'prev', P), (n, 'next', n), (n, 'prev', n)}:
+                return ('iv_list_del_init', [p])
+            if _key(v) in _NULLS:
+                for z in _NULLS:
+                    want = [(P, 'next', X), (X, 'prev', P), (n, 'next', z), (n, 'prev', z)]
+                    if SS == set(want) and S.index(want[0]) < S.index(want[2]) and S.index(want[1]) < S.index(want[3]):
+                        return ('iv_list_del', [p])
+        return None
+    if len(W) == 6:
+        for (p, f, v) in W:
+            o = _key(p)
+            if _key(v) != o:
+                continue
+            X, P = ini(p, 'next'), ini(p, 'prev')
+            for (p2, f2, v2) in W:
+                w = _key(p2)
+                if w != o and f2 == 'next' and _key(v2) == X and granted(w, (o, X, P), ((o, X), (o, P))) and \
+                        SS == {(w, 'next', X), (w, 'prev', P), (X, 'prev', w), (P, 'next', w), (o, 'next', o), (o, 'prev', o)}:
+                    return ('__iv_list_steal_elements', [p, p2])
+        return None
+    return None
+
+
+def _fuse_links(g):
+    """The bodies of INIT_IV_LIST_HEAD / iv_list_add / iv_list_add_tail / iv_list_del / iv_list_del_init /
+    __iv_list_steal_elements written out at the use site -- with the addresses and the neighbours cached in
+    locals or not, in any equivalent order -- become the helper's call event (placed where the first store was,
+    the values read in between being those of the state before the primitive)."""
+    ev_in, addr_taken = _copies(g)
+    total = 0
+
+    def unit(e):
+        if e['ev'] == 'store' and e.get('op') == '=' and 'rhs' in e and _list_field(strip(e['lhs'])):
+            return 'store'
+        if e['ev'] == 'call' and e.get('callee') == 'INIT_IV_LIST_HEAD' and len(e.get('args', [])) == 1:
+            return 'init'
+        return None
+
+    def local_store(e):
+        if e['ev'] == 'store':
+            l = strip(e['lhs'])
+            if isinstance(l, dict) and l.get('k') == 'var' and l.get('vk') in ('local', 'param') and l['name'] not in addr_taken:
+                return l['name']
+        return None
+
+    for b, blk in g.blocks.items():
+        evs = blk.events
+        out = []
+        i = 0
+        changed = False
+        while i < len(evs):
+            if unit(evs[i]) is None:
+                out.append(evs[i])
+                i += 1
+                continue
+            raw = {v: json.loads(ex) for (v, ex, _) in (ev_in.get((b, evs[i]['_i'])) or ()) if v not in addr_taken}
+            sym = _Sym(raw)
+            best = None
+            j = i
+            while j < len(evs):
+                e = evs[j]
+                u = unit(e)
+                if u == 'store':
+                    sym.store(e['lhs'], e['rhs'])
+                elif u == 'init':
+                    p = sym.rv(e['args'][0])
+                    sym.log.append((p, 'next', copy.deepcopy(p)))
+                    sym.log.append((p, 'prev', copy.deepcopy(p)))
+                elif e['ev'] == 'load':
+                    pass
+                elif e['ev'] == 'decl' and e.get('name') not in addr_taken:
+                    sym.assign(e['name'], None)
+                elif local_store(e) is not None:
+                    sym.assign(local_store(e), e['rhs'] if e.get('op') == '=' and 'rhs' in e else None)
+                    e['_term'] = sym.env[local_store(e)]
+                else:
+                    break
+                if u and len(sym.log) in (2, 4, 6):
+                    m = _match_primitive(sym.log, sym.assume)
+                    if m is not None and not (u == 'init' and len(sym.log) == 2):
+                        best = (j, m)
+                if len(sym.log) >= 6:
+                    break
+                j += 1
+            if best is None:
+                out.append(evs[i])
+                i += 1
+                continue
+            j, (callee, args) = best
+            span = evs[i:j + 1]
+            assigned = {local_store(e) for e in span if local_store(e) is not None} | {e['name'] for e in span if e['ev'] == 'decl'}
+            moved = [e for e in span if unit(e) is None]
+            terms = list(args) + [e['_term'] for e in moved if local_store(e) is not None]
+            if any(_has_top(t) for t in terms) or \
+                    any(x.get('k') == 'var' and x.get('name') in assigned for t in terms for x in walk(t)):
+                out.append(evs[i])
+                i += 1
+                continue
+            for e in moved:
+                if local_store(e) is not None:
+                    e['rhs'] = e.pop('_term')
+                    e['op'] = '='
+                out.append(e)
+            first = evs[i]
+            ce = {k: v for k, v in first.items() if k not in ('lhs', 'rhs', 'op', 'args', 'callee', 'from_decl', '_term')}
+            ce.update(ev='call', callee=callee, args=[copy.deepcopy(a) for a in args], used=False, synthetic=True, fused=True)
+            out.append(ce)
+            i = j + 1
+            changed = True
+            total += 1
+        if changed:
+            blk.events = out
+    for e in g.events():
+        e.pop('_term', None)
+    _renumber(g)
+    return total
+
+
 def normalise(g, rounds=6):
     """in-place value propagation to a fixpoint (g must be a private copy: an Inliner result).  A flag
     that reaches its test through copies (`return kicked;` ... `run = helper(); if (run)`) becomes a
@@ -350,13 +798,203 @@ def normalise(g, rounds=6):
             changed = True
         if not changed:
             break
+    _merge_chains(g)
+    if _fuse_links(g):
+        for _ in range(rounds):
+            if not _propagate_once(g):
+                break
     _resolve_indirect(g)
     g._h08_normalised = True
     return g
 
 
+# --------------------------------------------------------------------------
+# calls through constant tables of function pointers
+# --------------------------------------------------------------------------
+
+def table_call(prog, unit, e):
+    """For an indirect call `T[i](...)` / `T[i].f(...)` through a file-scope array that is never written and
+    whose initialiser names a function for every element: (index expression, [Func per element]); else None."""
+    if e.get('ev') not in ('call', 'enter') or 'fnexpr' not in e:
+        return None
+    fe = strip(e['fnexpr'])
+    field = None
+    if isinstance(fe, dict) and fe.get('k') == 'member' and not fe.get('arrow'):
+        field = fe['field']
+        fe = strip(fe['base'])
+    if not (isinstance(fe, dict) and fe.get('k') == 'index'):
+        return None
+    base = strip(fe['base'])
+    if not (isinstance(base, dict) and base.get('k') == 'var' and base.get('vk') in ('global', 'staticlocal')):
+        return None
+    g = prog.global_for(unit, base['name']) if unit else prog.globals.get(base['name'])
+    if not isinstance(g, dict) or g.get('extern_decl') or not isinstance(g.get('init'), dict) or g['init'].get('k') != 'init':
+        return None
+    if 'const' not in (g.get('type') or '') and prog.global_writers(base['name']):
+        return None
+    elems = g['init'].get('elems')
+    if not elems or (g.get('bound') is not None and g['bound'] != len(elems)):
+        return None
+    out = []
+    for el in elems:
+        el = strip(el)
+        if field is not None:
+            if not (isinstance(el, dict) and el.get('k') == 'init' and isinstance(el.get('fields'), dict)):
+                return None
+            el = strip(el['fields'].get(field))
+        if isinstance(el, dict) and el.get('k') == 'addr':
+            el = strip(el['e'])
+        if not (isinstance(el, dict) and el.get('k') == 'var' and el.get('vk') == 'func'):
+            return None
+        t = prog.resolve(g.get('unit'), el['name']) if g.get('unit') else prog.funcs.get(el['name'])
+        if t is None or not t.blocks:
+            return None
+        out.append(t)
+    return fe['idx'], out
+
+
+def _func_ref(prog, unit, x):
+    x = strip(x)
+    if isinstance(x, dict) and x.get('k') == 'addr':
+        x = strip(x['e'])
+    if isinstance(x, dict) and x.get('k') == 'var' and x.get('vk') == 'func':
+        t = prog.resolve(unit, x['name']) if unit else prog.funcs.get(x['name'])
+        return t if t is not None and t.blocks else None
+    return None
+
+
+def local_pointer_call(prog, caller, e):
+    """For an indirect call through a plain local of `caller` that is only ever assigned addresses of
+    functions (`kick = helper_a; ... kick(x)`): (variable name, [Func...] sorted by name); else None."""
+    if 'fnexpr' not in e:
+        return None
+    fe = strip(e['fnexpr'])
+    if isinstance(fe, dict) and fe.get('k') == 'deref':
+        fe = strip(fe['e'])
+    if not (isinstance(fe, dict) and fe.get('k') == 'var' and fe.get('vk') == 'local'):
+        return None
+    v = fe['name']
+    unit = prog.unit_of(caller)
+    tg = {}
+    for x in caller.events():
+        if any(y.get('k') == 'addr' and var_name(y['e']) == v for y in walk(x)):
+            return None
+        if x['ev'] == 'store' and var_name(x['lhs']) == v:
+            t = _func_ref(prog, unit, x.get('rhs')) if x.get('op') == '=' else None
+            if t is None:
+                return None
+            tg[t.q] = t
+    if not tg:
+        return None
+    return v, [tg[q] for q in sorted(tg)]
+
+
+class TableInliner(Inliner):
+    """an Inliner that also enters the functions selected by a call through a constant table of function
+    pointers or through a local that holds one of several function addresses"""
+    def _targets(self, caller, e, known_table=None):
+        tg = Inliner._targets(self, caller, e, known_table)
+        if tg is None and 'callee' not in e:
+            tc = table_call(self.prog, self.prog.unit_of(caller), e)
+            if tc is None:
+                tc = local_pointer_call(self.prog, caller, e)
+            if tc is not None and not any(self.stop(t) for t in tc[1]):
+                return list(tc[1])
+        return tg
+
+
+def _encode_pointer_local(prog, unit, g, en):
+    """The dispatch `enter` of a call through a function-pointer local v: when every store to v in g is the address
+    of one of the entered functions, number them (v = address of target k becomes v = k): v is then an ordinary
+    small-integer flag, the dispatch tests v == k, and flag partitioning threads the choice through.  Returns
+    (index expression, [Func per number]) or None."""
+    fe = strip(en.get('fnexpr'))
+    if isinstance(fe, dict) and fe.get('k') == 'deref':
+        fe = strip(fe['e'])
+    if not (isinstance(fe, dict) and fe.get('k') == 'var' and fe.get('vk') == 'local'):
+        return None
+    v = fe['name']
+    qs = list(en.get('targets') or [])
+    stores = [x for x in g.events() if x['ev'] == 'store' and var_name(x['lhs']) == v]
+    if not stores or any(y.get('k') == 'addr' and var_name(y['e']) == v for x in g.events() for y in walk(x)):
+        return None
+    num = []
+    for x in stores:
+        t = _func_ref(prog, unit, x.get('rhs')) if x.get('op') == '=' else None
+        if t is None or t.q not in qs:
+            return None
+        num.append(qs.index(t.q))
+    for x, k in zip(stores, num):
+        x['rhs_function'] = x['rhs']
+        x['rhs'] = {'k': 'int', 'v': k, 'type': 'int'}
+    funcs = [prog.funcs.get(q) for q in qs]
+    if any(f is None for f in funcs):
+        return None
+    return {'k': 'load', 'e': dict(fe)}, funcs
+
+
+def _determinise_table_dispatch(prog, g):
+    """The Inliner enters the targets of one call site through a non-deterministic dispatch block.  For a call
+    through a constant table the element entered is the one the index selects: element k on `index == k`
+    (the last one otherwise: an index outside the table is undefined behaviour)."""
+    from ..core import Block
+    n = 0
+    for blk in list(g.blocks.values()):
+        if not (blk.term and blk.term.get('cls') == 'MethodDispatch' and blk.events and blk.events[-1]['ev'] == 'enter'):
+            continue
+        en = blk.events[-1]
+        origin = prog.funcs.get(en.get('fn')) if en.get('fn') else None
+        unit = prog.unit_of(origin) if origin is not None else None
+        tc = table_call(prog, unit, en)
+        if tc is None:
+            tc = _encode_pointer_local(prog, unit, g, en)
+        if tc is None or [t.q for t in tc[1]] != list(en.get('targets') or []) or len(blk.succ) != len(tc[1]):
+            continue
+        idx, succ = tc[0], list(blk.succ)
+
+        def test(k):
+            return {'cls': 'IfStmt', 'loc': en['loc'], 'table_dispatch': True,
+                    'cond': {'k': 'bin', 'op': '==', 'l': copy.deepcopy(idx), 'r': {'k': 'int', 'v': k}, 'type': 'int'}}
+        cur = blk
+        for k in range(len(succ) - 1):
+            cur.term = test(k)
+            if k == len(succ) - 2:
+                cur.succ = [succ[k], succ[k + 1]]
+            else:
+                nb = Block(max(g.blocks) + 1, [], [], None)
+                g.blocks[nb.id] = nb
+                cur.succ = [succ[k], nb.id]
+                cur = nb
+        n += 1
+    if n:
+        g._preds = None
+    return n
+
+
 def inline(prog, f, **kw):
-    return normalise(Inliner(prog, **kw).inline(f))
+    g = TableInliner(prog, **kw).inline(f)
+    _determinise_table_dispatch(prog, g)
+    return normalise(g)
+
+
+def global_paths(g):
+    """spellings of the file-scope / global objects g reads or tests: plain variables and members selected
+    from them with `.` (a flag grouped into a static struct)"""
+    out = set()
+
+    def scan(x):
+        for y in walk(x):
+            m = y
+            while isinstance(m, dict) and m.get('k') == 'member' and not m.get('arrow'):
+                m = strip_load(m['base'])
+            if isinstance(m, dict) and m.get('k') == 'var' and m.get('vk') in ('global', 'staticlocal') and y.get('k') in ('var', 'member'):
+                out.add(canon(y))
+    for e in g.events():
+        scan(e)
+    for blk in g.blocks.values():
+        if blk.term and blk.term.get('cond') is not None:
+            scan(blk.term['cond'])
+    return out
 
 
 # --------------------------------------------------------------------------
@@ -416,12 +1054,22 @@ def container_ptr(x, key):
     m = member_of(x)
     if m is None or (m.get('record'), m['field']) != key:
         return None
-    if m['arrow']:
-        return m['base']
-    b = strip(m['base'])
-    if isinstance(b, dict) and b.get('k') == 'deref':
-        return b['e']
-    return {'k': 'addr', 'e': m['base']}
+    return object_ptr(m)
+
+
+def object_ptr(m):
+    """the pointer through which the object that (transitively, by `.` selections) contains member m is
+    reached: O for `O->a.b.m`, &V for `V.a.m`"""
+    while True:
+        if m['arrow']:
+            return m['base']
+        b = strip(m['base'])
+        if isinstance(b, dict) and b.get('k') == 'member':
+            m = b
+            continue
+        if isinstance(b, dict) and b.get('k') == 'deref':
+            return b['e']
+        return {'k': 'addr', 'e': m['base']}
 
 
 def spellings(x):
@@ -524,8 +1172,26 @@ def in_class(x, S, direct):
 # guarded list memory of the iv_event machinery
 # --------------------------------------------------------------------------
 
-PENDING = ('iv_state', 'events_pending')
-LINK = ('iv_event', 'list')
+class Keys:
+    """(record, field) of the objects the rules speak about.  LINK and OWNER are fields of the public struct
+    iv_event; the fields of the per-thread state are private to the library: they default to today's names and are
+    re-identified by role (c08.derive_keys) when a refactoring renamed them or moved them into a sub-structure."""
+    LINK = ('iv_event', 'list')
+    OWNER = ('iv_event', 'owner')
+    DEFAULTS = {'PENDING': ('iv_state', 'events_pending'), 'EVL_KEY': ('iv_state', 'event_list_mutex'),
+                'KICK': ('iv_state', 'events_kick'), 'LOCAL': ('iv_state', 'events_local')}
+
+    def __init__(self):
+        self.set(**self.DEFAULTS)
+
+    def set(self, **kw):
+        for k, v in kw.items():
+            setattr(self, k, v)
+        self.EVL = '%s.%s' % self.EVL_KEY
+        self.derived = kw != self.DEFAULTS
+
+
+K = Keys()
 
 
 def list_class(x, batches):
@@ -539,9 +1205,9 @@ def list_class(x, batches):
         m = strip(a['e'])
         if isinstance(m, dict) and m.get('k') == 'member':
             key = (m.get('record'), m['field'])
-            if key == PENDING:
+            if key == K.PENDING:
                 return 'pending'
-            if key == LINK:
+            if key == K.LINK:
                 return 'link'
         if canon(a) in batches:
             return 'batch'
